@@ -343,7 +343,10 @@ def check(run):
             guards_ok = guards_ok and G.equivalent(pc, ("atom", "truthy:" + cond))[0]
         rtm = [n for n in own_nodes(ml.node) if isinstance(n, ast.Return)]
         LST = norm_src(apps[0].func.value) if apps else None
-        ok_ret = len(rtm) == 1 and norm_src(rtm[0].value) == f"'/'.join({LST}[::-1])"
+        # leaf-to-root collection, joined root-to-leaf: '/'.join(lst[::-1]) / '/'.join(reversed(lst)) / lst.reverse() then '/'.join(lst)
+        rev_stmt = any(isinstance(st_, ast.Expr) and norm_src(st_.value) == f"{LST}.reverse()" for st_ in ml.node.body)
+        ret_src = norm_src(rtm[0].value) if len(rtm) == 1 and rtm[0].value is not None else ""
+        ok_ret = ret_src in (f"'/'.join({LST}[::-1])", f"'/'.join(reversed({LST}))", f"'/'.join(list(reversed({LST})))") or (rev_stmt and ret_src == f"'/'.join({LST})")
         ok_ml = ok_adv and ok_apps and guards_ok and ok_ret
     run.ob("R3-cli", "query.make_label/ancestor-chain", ok_ml, w(ml.node, qm),
            "a label is the root-to-node chain of non-empty types and '>'-prefixed obfuscations joined by '/'", "", mech="loop-shape match")
